@@ -561,3 +561,252 @@ pub fn shrink(p: &Plan, assert_id: &str, reg: &[TypeEntry]) -> (Plan, u32) {
     }
     (cur, steps)
 }
+
+// ---- byte lane ---------------------------------------------------------------------------------
+
+use crate::bytes::{JPlan, JReader};
+
+/// Seeded generator for the byte lane.
+pub fn random_jplan(reg: &[TypeEntry], seed: u64, run: u64) -> JPlan {
+    let mut rng = Rng::from_seed_run(seed ^ 0x4A53_4F4E_0000_0001, run);
+    let dec: Vec<usize> = reg.iter().enumerate().filter(|(_, e)| e.is_dec).map(|(i, _)| i).collect();
+    let ti = if rng.chance(45, 100) && !dec.is_empty() { dec[rng.usize_below(dec.len())] } else { rng.usize_below(reg.len()) };
+    let e = &reg[ti];
+    let style = [LeafStyle::SmallDistinct, LeafStyle::RandomBits, LeafStyle::Specials, LeafStyle::Mixed][rng.usize_below(4)];
+    let gen = gen_leaves(&mut rng, &e.gen_kinds, style);
+    let mut p = JPlan::base(&e.name, gen);
+    p.pretty = rng.chance(1, 4);
+    p.reader = [JReader::Reader, JReader::Buffered, JReader::Slice, JReader::Str][rng.usize_below(4)];
+    // benign disk behaviour, drawn independently of the fault mode (swarm)
+    if rng.chance(1, 3) {
+        p.w_chunk = 1 + rng.below(7) as u16;
+    }
+    if rng.chance(1, 4) {
+        p.w_eintr_every = 2 + rng.below(5) as u16;
+    }
+    if p.reader == JReader::Reader || p.reader == JReader::Buffered {
+        if rng.chance(1, 3) {
+            p.r_chunk = 1 + rng.below(7) as u16;
+        }
+        if rng.chance(1, 4) {
+            p.r_eintr_every = 2 + rng.below(5) as u16;
+        }
+    }
+    let probe = &e.probes[probe_index(&Medium::DEFAULT)];
+    // text length of this value is not known before the write; the generator aims by fraction
+    let len_guess = (e.json_len as u64).max(2) * if p.pretty { 3 } else { 1 };
+    let mode = rng.below(100);
+    if mode < 25 {
+        if rng.chance(1, 3) {
+            let kinds: Vec<(Kind, GenClass)> = e.leaf_kinds.iter().map(|k| (*k, GenClass::Any)).collect();
+            let st = [LeafStyle::RandomBits, LeafStyle::Specials, LeafStyle::Mixed][rng.usize_below(3)];
+            p.patch = Some(gen_leaves(&mut rng, &kinds, st));
+        }
+        p.escape_keys = rng.chance(1, 4);
+        p.ws = rng.below(3) as u8;
+    } else if mode < 45 {
+        let w = (e.json_wcalls as u64).max(1) * if p.w_chunk > 0 { 2 } else { 1 };
+        let step = match rng.below(10) {
+            0 => 0,
+            1 | 2 => w.saturating_sub(1 + rng.below(w.min(3))),
+            _ => rng.below(w),
+        } as u32;
+        p.w_err = Some(WFault { step, kind: if rng.chance(1, 3) { WKind::Permanent } else { WKind::Transient } });
+        p.retry = rng.chance(1, 4);
+    } else if mode < 75 {
+        let n = match rng.below(20) {
+            0..=12 => 1,
+            13..=17 => 2,
+            _ => 3,
+        };
+        for _ in 0..n {
+            if let Some(f) = gen_struct_fault(&mut rng, &probe.records, e.is_dec) {
+                p.rfaults.push(f);
+            }
+        }
+        p.escape_keys = rng.chance(1, 4);
+        p.ws = rng.below(3) as u8;
+        p.retry = rng.chance(1, 4);
+    } else if mode < 90 {
+        // the file ends early, or the read fails part-way
+        let at = rng.below(len_guess + 2) as u32;
+        if (p.reader == JReader::Reader || p.reader == JReader::Buffered) && rng.chance(1, 2) {
+            p.r_err_at = Some(at);
+        } else {
+            p.trunc_at = Some(at);
+        }
+        if rng.chance(1, 3) {
+            if let Some(f) = gen_struct_fault(&mut rng, &probe.records, e.is_dec) {
+                p.rfaults.push(f);
+            }
+        }
+        p.retry = rng.chance(1, 4);
+    } else {
+        p.flip = Some((rng.below(len_guess) as u32, rng.below(8) as u8));
+        if rng.chance(1, 3) {
+            p.rfaults.push(RFault::Reorder { path: vec![], perm: random_perm(&mut rng, probe.records.first().map(|r| r.1.len()).unwrap_or(0)) });
+        }
+    }
+    p
+}
+
+pub fn sweep_jplans(reg: &[TypeEntry]) -> Vec<JPlan> {
+    let mut out = Vec::new();
+    for e in reg {
+        let gen = simple_gen(&e.gen_kinds);
+        let base = JPlan::base(&e.name, gen.clone());
+        // fault-free, every reader, compact and pretty, with and without benign disk behaviour
+        for reader in [JReader::Reader, JReader::Slice, JReader::Str, JReader::Buffered] {
+            for pretty in [false, true] {
+                let mut q = base.clone();
+                q.reader = reader;
+                q.pretty = pretty;
+                out.push(q.clone());
+                q.w_chunk = 1;
+                q.w_eintr_every = 2;
+                if reader == JReader::Reader || reader == JReader::Buffered {
+                    q.r_chunk = 3;
+                    q.r_eintr_every = 3;
+                }
+                out.push(q);
+            }
+        }
+        // every write() call fails once / from then on
+        for k in 0..e.json_wcalls {
+            for kind in [WKind::Transient, WKind::Permanent] {
+                let mut q = base.clone();
+                q.w_err = Some(WFault { step: k, kind });
+                q.retry = k == 0;
+                out.push(q);
+            }
+        }
+        // the file ends after every possible byte; the read fails at every possible byte
+        for b in 0..e.json_len {
+            let mut q = base.clone();
+            q.trunc_at = Some(b);
+            q.reader = if b % 2 == 0 { JReader::Reader } else { JReader::Slice };
+            out.push(q);
+            let mut q = base.clone();
+            q.r_err_at = Some(b);
+            q.reader = if b % 3 == 0 { JReader::Buffered } else { JReader::Reader };
+            out.push(q);
+        }
+        if !e.is_dec {
+            continue;
+        }
+        let p = &e.probes[probe_index(&Medium::DEFAULT)];
+        let n = p.records.first().map(|r| r.1.len()).unwrap_or(0);
+        if n == 0 || n > 4 {
+            continue;
+        }
+        for (ri, reader) in [JReader::Reader, JReader::Slice, JReader::Str].iter().enumerate() {
+            for arr in arrangements(n) {
+                let dropped: Vec<u8> = (0..n as u8).filter(|i| !arr.contains(i)).collect();
+                let mut perm = arr.clone();
+                perm.extend(dropped.iter().copied());
+                let mut faults = vec![RFault::Reorder { path: vec![], perm }];
+                if !dropped.is_empty() {
+                    faults.push(RFault::Drop { path: vec![], idx: dropped.clone() });
+                }
+                let mut q = base.clone();
+                q.reader = *reader;
+                q.rfaults = faults.clone();
+                q.escape_keys = ri == 1;
+                q.ws = ri as u8;
+                out.push(q.clone());
+                for pos in 0..=arr.len() as u8 {
+                    for (key, val) in [("rotation", UVal::CopyOf(1)), ("Scale", UVal::Num), ("", UVal::Unit)] {
+                        let mut q2 = q.clone();
+                        q2.rfaults.push(RFault::Unknown { path: vec![], pos, key: key.to_string(), val });
+                        out.push(q2);
+                    }
+                }
+            }
+        }
+        // every single stored bit flipped (compact text as written)
+        for b in 0..e.json_len {
+            for bit in 0..8u8 {
+                let mut q = base.clone();
+                q.flip = Some((b, bit));
+                q.reader = JReader::Slice;
+                out.push(q);
+            }
+        }
+    }
+    out
+}
+
+pub fn shrink_j(p: &JPlan, assert_id: &str, reg: &[TypeEntry]) -> (JPlan, u32) {
+    let e = match reg.iter().find(|e| e.name == p.ty) {
+        Some(e) => e,
+        None => return (p.clone(), 0),
+    };
+    let simple = simple_gen(&e.gen_kinds);
+    let mut cur = p.clone();
+    let mut steps = 0;
+    let mut budget = 2000;
+    'outer: loop {
+        let mut cands: Vec<JPlan> = Vec::new();
+        for i in 0..cur.rfaults.len() {
+            let mut q = cur.clone();
+            q.rfaults.remove(i);
+            cands.push(q);
+        }
+        macro_rules! reset {
+            ($f:ident, $v:expr) => {
+                if cur.$f != $v {
+                    let mut q = cur.clone();
+                    q.$f = $v;
+                    cands.push(q);
+                }
+            };
+        }
+        reset!(retry, false);
+        reset!(patch, None);
+        reset!(w_err, None);
+        reset!(trunc_at, None);
+        reset!(r_err_at, None);
+        reset!(flip, None);
+        reset!(pretty, false);
+        reset!(w_chunk, 0);
+        reset!(w_eintr_every, 0);
+        reset!(r_chunk, 0);
+        reset!(r_eintr_every, 0);
+        reset!(escape_keys, false);
+        reset!(ws, 0);
+        reset!(reader, JReader::Reader);
+        if let Some(f) = cur.w_err {
+            if f.kind == WKind::Permanent {
+                let mut q = cur.clone();
+                q.w_err = Some(WFault { step: f.step, kind: WKind::Transient });
+                cands.push(q);
+            }
+        }
+        if cur.gen != simple {
+            let mut q = cur.clone();
+            q.gen = simple.clone();
+            cands.push(q);
+            for i in 0..cur.gen.len().min(simple.len()) {
+                if cur.gen[i] != simple[i] {
+                    let mut q = cur.clone();
+                    q.gen[i] = simple[i];
+                    cands.push(q);
+                }
+            }
+        }
+        for c in cands {
+            if budget == 0 {
+                break 'outer;
+            }
+            budget -= 1;
+            let o = (e.run_json)(&c, Default::default());
+            if o.harness_error.is_none() && o.failure.as_ref().map(|f| f.assert_id) == Some(assert_id) {
+                cur = c;
+                steps += 1;
+                continue 'outer;
+            }
+        }
+        break;
+    }
+    (cur, steps)
+}
